@@ -33,7 +33,7 @@ static Step gen_edit(Rng &r, int focus_name = -1)
 {
 	Step e("EDIT");
 	e.set("hdr", r.chance(1, 3) ? 1 : 0);
-	e.set("act", (int64_t)r.pick(std::vector<int>{0, 0, 0, 1, 1, 2}));
+	e.set("act", (int64_t)r.pick(std::vector<int>{0, 0, 0, 0, 1, 1, 1, 2, 3})); // 3: a request the typed map refuses (INVALID), no change
 	e.set("name", focus_name >= 0 && r.chance(2, 3) ? (int64_t)focus_name : (int64_t)r.below(9));
 	e.set("type", r.range(0, 3));
 	e.set("val", (int64_t)r.below(16));
@@ -63,8 +63,33 @@ static void model_edit(json_t *hdr, json_t *claims, const Step &e)
 	case 1:
 		json_object_del(m, name);
 		break;
+	case 3:
+		break; // refused request
 	default:
 		json_object_clear(m);
+	}
+}
+
+// a request the typed map refuses with INVALID and no change: malformed JSON text (named or whole-object),
+// a string value that is NULL, a scalar with an empty or absent name
+static void invalid_request(const Step &e, const char *name, jwt_value_t *jv)
+{
+	static const char *bad[] = {"{", "{\"a\":}", "nope", "", "{\"a\":1,}", "[1,"};
+	switch ((uint64_t)e.I("val") % 5) {
+	case 0:
+		jv_set_json(jv, name, bad[(uint64_t)e.I("type") % ARRAY_LEN(bad)], (int)e.I("replace"));
+		break;
+	case 1:
+		jv_set_json(jv, NULL, bad[(uint64_t)e.I("type") % ARRAY_LEN(bad)], 1);
+		break;
+	case 2:
+		jv_set_str(jv, name, NULL, (int)e.I("replace"));
+		break;
+	case 3:
+		jv_set_int(jv, "", 7, (int)e.I("replace"));
+		break;
+	default:
+		jv_set_bool(jv, NULL, 1, (int)e.I("replace"));
 	}
 }
 
@@ -102,6 +127,15 @@ static void lib_edit_jwt(jwt_t *jwt, const Step &e)
 		else
 			jwt_claim_del(jwt, name);
 		break;
+	case 3: {
+		jwt_value_t jv;
+		invalid_request(e, name, &jv);
+		if (hdr)
+			jwt_header_set(jwt, &jv);
+		else
+			jwt_claim_set(jwt, &jv);
+		break;
+	}
 	default:
 		if (hdr)
 			jwt_header_del(jwt, NULL);
@@ -144,6 +178,15 @@ static void lib_edit_builder(jwt_builder_t *b, const Step &e)
 		else
 			jwt_builder_claim_del(b, name);
 		break;
+	case 3: {
+		jwt_value_t jv;
+		invalid_request(e, name, &jv);
+		if (hdr)
+			jwt_builder_header_set(b, &jv);
+		else
+			jwt_builder_claim_set(b, &jv);
+		break;
+	}
 	default:
 		if (hdr)
 			jwt_builder_header_del(b, NULL);
@@ -513,7 +556,9 @@ static void reuse_gen(Rng &r, Plan &p, Tier tier, uint64_t index)
 {
 	p.cfg["reuse"] = Val((int64_t)(r.chance(1, 4) ? 1 : 0)); // allocator address reuse (see SimAlloc::reuse)
 	(void)index;
-	p.cfg["mode"] = Val((int64_t)r.below(4)); // 0 checker HS256, 1 checker no key, 2 builder, 3 checker RSA (PS256 or RS256, OpenSSL)
+	// 0 checker HS256, 1 checker no key, 2 builder, 3 checker RSA (PS256 or RS256, OpenSSL), 4 checker whose callback picks the key
+	// from a ring of ten (by the token's kid; for a token without kid the first key of the ring)
+	p.cfg["mode"] = Val((int64_t)r.below(5));
 	p.cfg["rsalg"] = Val((int64_t)r.below(2));
 	p.cfg["iss"] = Val((int64_t)r.below(2));
 	p.cfg["faults"] = Val((int64_t)(r.chance(1, 4) ? 1 : 0));
@@ -542,6 +587,12 @@ static void reuse_gen(Rng &r, Plan &p, Tier tier, uint64_t index)
 			s.set("kind", (int64_t)r.below(TK_N));
 			if (p.C("faults") && r.chance(1, 4))
 				s.set("failalloc", r.range(1, 40));
+			if (p.C("mode") == 4) {
+				s.set("rk", r.chance(1, 3) ? r.range(8, 9) : r.range(0, 9)); // which key of the ring signs
+				s.set("nokid", r.chance(1, 3) ? 1 : 0);
+				if (r.chance(1, 2))
+					s.set("kind", (int64_t)TK_VALID);
+			}
 		}
 		s.uid = (uint64_t)i + 1;
 		p.steps.push_back(s);
@@ -560,6 +611,31 @@ struct ReuseCfg {
 	int64_t exp_off = 0;
 	std::string claim_a;
 };
+
+// mode 4: the application's callback looks the key up in a ring it owns
+struct RingCtx {
+	jwk_set_t *ring = nullptr;
+	int calls = 0;
+};
+static int ring_cb(jwt_t *jwt, jwt_config_t *config)
+{
+	RingCtx *rc = (RingCtx *)config->ctx;
+	if (!rc || !rc->ring)
+		return 1;
+	rc->calls++;
+	jwt_value_t jv;
+	jv_get(&jv, JWT_VALUE_STR, "kid");
+	const jwk_item_t *it;
+	if (jwt_header_get(jwt, &jv) == JWT_VALUE_ERR_NONE && jv.str_val)
+		it = jwks_find_bykid(rc->ring, jv.str_val);
+	else
+		it = jwks_item_get(rc->ring, 0); // tokens issued before kids were introduced: the first key
+	if (!it)
+		return 1;
+	config->key = it;
+	config->alg = JWT_ALG_HS256;
+	return 0;
+}
 
 static void reuse_exec(Ctx &ctx)
 {
@@ -580,10 +656,32 @@ static void reuse_exec(Ctx &ctx)
 	jwt_alg_t rsalg = plan.C("rsalg") ? JWT_ALG_PS256 : JWT_ALG_RS256;
 	const AlgInfo *rsinfo = alg_by_id(rsalg);
 	set_provider(0); // OpenSSL: its thread-local error queue is the hidden state to look for in RSA mode
+	std::vector<KeyRef> ring_keys;
+	std::string ring_doc;
+	RingCtx ring_long, ring_twin;
+	if (mode == 4) {
+		Rng rr(mix64(plan.rng, 0x4149));
+		ring_doc = "{\"keys\":[";
+		for (int i = 0; i < 10; i++) {
+			KeyRef k = key_gen_oct(rr, 32);
+			JwkOpts o;
+			o.has_alg = true;
+			o.alg = "HS256";
+			o.has_kid = true;
+			o.kid = strf("r%d", i);
+			ring_doc += (i ? "," : "") + jwk_export(*k, o);
+			ring_keys.push_back(k);
+		}
+		ring_doc += "]}";
+		Armed a;
+		ring_long.ring = jwks_create(ring_doc.c_str());
+	}
 
-	auto make_checker = [&](ProgCtx *pc) -> jwt_checker_t * {
+	auto make_checker = [&](ProgCtx *pc, RingCtx *rc = nullptr) -> jwt_checker_t * {
 		Armed a;
 		jwt_checker_t *c = jwt_checker_new();
+		if (mode == 4 && rc)
+			jwt_checker_setcb(c, ring_cb, rc);
 		if (mode == 0)
 			jwt_checker_setkey(c, JWT_ALG_HS256, K.oct_l.item);
 		if (mode == 3)
@@ -640,7 +738,7 @@ static void reuse_exec(Ctx &ctx)
 		return b;
 	};
 
-	jwt_checker_t *chk = mode != 2 ? make_checker(&pc_long) : NULL;
+	jwt_checker_t *chk = mode != 2 ? make_checker(&pc_long, &ring_long) : NULL;
 	jwt_builder_t *bld = mode == 2 ? make_builder(&pc_long) : NULL;
 
 	for (size_t si = 0; si < plan.steps.size(); si++) {
@@ -704,6 +802,8 @@ static void reuse_exec(Ctx &ctx)
 			}
 			ctx.logf("CONFIG what=%lld val=%lld", (long long)s.I("what"), (long long)s.I("val"));
 		} else if (s.op == "CBMODE") {
+			if (mode == 4)
+				continue; // the ring callback stays
 			cfg.cbmode = (int)s.I("mode");
 			pc_long = ProgCtx();
 			if (cfg.cbmode == 2)
@@ -733,6 +833,13 @@ static void reuse_exec(Ctx &ctx)
 			std::string pay = strf("{\"iss\":\"%s\",\"exp\":%lld}", iss.c_str(), (long long)(now + 1000));
 			const KeyTruth *kt = mode == 0 ? K.oct.get() : mode == 3 ? K.rsa.get() : NULL;
 			const AlgInfo *ka = mode == 0 ? hs256 : mode == 3 ? rsinfo : NULL;
+			if (mode == 4) {
+				int rk = (int)((uint64_t)s.I("rk") % 10);
+				bool nokid = s.I("nokid") != 0;
+				hdr = nokid ? "{\"alg\":\"HS256\"}" : strf("{\"alg\":\"HS256\",\"kid\":\"r%d\"}", rk);
+				kt = ring_keys[nokid ? 0 : (size_t)rk].get();
+				ka = hs256;
+			}
 			sim_entropy_point(mix64(plan.rng, s.uid));
 			switch (kind) {
 			case TK_VALID:
@@ -783,13 +890,24 @@ static void reuse_exec(Ctx &ctx)
 			// error queue left behind by an earlier rejected token) is as fresh as the checker itself
 			VerifyOut vt;
 			run_isolated(mix64(plan.rng, s.uid + 7777), [&]() {
-				jwt_checker_t *twin = make_checker(&pc_twin);
+				if (mode == 4) {
+					// the twin's application is as fresh as its checker: the ring loaded anew from the same document
+					Armed a;
+					ring_twin = RingCtx();
+					ring_twin.ring = jwks_create(ring_doc.c_str());
+				}
+				jwt_checker_t *twin = make_checker(&pc_twin, &ring_twin);
 				vt = lib_verify(ctx, twin, tokp, true, 0);
 				Armed a;
 				jwt_checker_free(twin);
+				if (mode == 4) {
+					jwks_free(ring_twin.ring);
+					ring_twin.ring = NULL;
+				}
 			});
 			ctx.logf("CALL kind=%d -> reused %d ('%s') twin %d ('%s')%s", kind, vo.ret, vo.msg.c_str(), vt.ret, vt.msg.c_str(), vo.faults_fired ? " [alloc fault]" : "");
-			ctx.sig(strf("C13|c%d|k%d|cb%d|%d|%d|f%d|h%llx", mode, kind, cfg.cbmode, vo.ret != 0, vt.ret != 0, vo.faults_fired > 0, (unsigned long long)(hist & 0xffffff)));
+			ctx.sig(strf("C13|c%d|k%d|cb%d|%d|%d|f%d|h%llx|%s", mode, kind, cfg.cbmode, vo.ret != 0, vt.ret != 0, vo.faults_fired > 0, (unsigned long long)(hist & 0xffffff),
+				     mode == 4 ? strf("rk%lld.%lld", (long long)s.I("rk"), (long long)s.I("nokid")).c_str() : ""));
 			hist = (hist << 8) | (uint64_t)(0x10 + kind * 2 + (vo.ret != 0));
 			if (vo.faults_fired) {
 				// under an allocation fault: same verdict or a reported failure, never a wrong accept
@@ -844,6 +962,10 @@ static void reuse_exec(Ctx &ctx)
 	if (bld) {
 		Armed a;
 		jwt_builder_free(bld);
+	}
+	if (ring_long.ring) {
+		Armed a;
+		jwks_free(ring_long.ring);
 	}
 	K.fini();
 	monitor_no_leak(ctx, "C06", "reuse-run");
@@ -1023,7 +1145,7 @@ static void callback_exec(Ctx &ctx)
 			for (auto &e : s.sub) {
 				if (!progdesc.empty())
 					progdesc += ";";
-				progdesc += strf("%s.%s:%s", e.I("hdr") ? "hdr" : "claims", edit_name(e), e.I("act") == 0 ? (e.I("replace") ? "replace" : "set") : e.I("act") == 1 ? "del" : "del-all");
+				progdesc += strf("%s.%s:%s", e.I("hdr") ? "hdr" : "claims", edit_name(e), e.I("act") == 0 ? (e.I("replace") ? "replace" : "set") : e.I("act") == 1 ? "del" : e.I("act") == 3 ? "invalid-request" : "del-all");
 			}
 			ctx.logf("VERIFY now=%lld fail=%d prog=[%s] cbret=%d cbsel=%d -> without cb %d ('%s'), with cb %d ('%s')", (long long)now, fail, progdesc.c_str(), cbret, cbsel, v0.ret, v0.msg.c_str(),
 				 v1.ret, v1.msg.c_str());
@@ -1043,6 +1165,10 @@ static void callback_exec(Ctx &ctx)
 				std::string cause = "other";
 				for (auto &e : s.sub) {
 					std::string n = edit_name(e);
+					if (e.I("act") == 3) {
+						cause = "invalid-request";
+						continue; // a later edit of a standard claim names the cause more precisely
+					}
 					if (!e.I("hdr") && e.I("act") == 2) {
 						cause = "claims:del-all";
 						break;
